@@ -55,13 +55,14 @@ def synthetic_setup(rng, ncat=6, multi_label=True):
     atoms = ['A', 'B', 'C', 'D', 'E', 'F', 'G', 'H'][:ncat]
     cats = [Category.parse(a) for a in atoms]
     hl = rng.random() < 0.5
+    mixed = rng.random() < 0.3        # results of one pair of children may differ in head direction
     table, utable = {}, {}
     for x in cats:
         for y in cats:
             if rng.random() < 0.4:
                 k = rng.choice([1, 1, 2, 3])
                 outs = [rng.choice(cats) for _ in range(k)]
-                table[(x, y)] = [CombinatorResult(cat=c, op_string=f'r{i}{str(x)}{str(y)}', op_symbol=f'<{i}>', head_is_left=hl) for i, c in enumerate(outs)]
+                table[(x, y)] = [CombinatorResult(cat=c, op_string=f'r{i}{str(x)}{str(y)}', op_symbol=f'<{i}>', head_is_left=((rng.random() < 0.5) if mixed else hl)) for i, c in enumerate(outs)]
     for i, x in enumerate(cats[:-1]):
         if rng.random() < 0.4:
             outs = rng.sample(cats[i + 1:], min(len(cats) - i - 1, rng.choice([1, 2, 2])))
